@@ -58,7 +58,8 @@ static void wlRWLock() {
   bool useUpgrade = chance(1, 3);
   sim_note("threads", nThreads);
   sim_note("upgrade", useUpgrade);
-  dispenso::RWLock lock;
+  std::unique_ptr<dispenso::RWLock> lockOwner(new dispenso::RWLock()); // heap: store-buffer fault
+  dispenso::RWLock& lock = *lockOwner;
   std::vector<std::vector<int>> plans((size_t)nThreads);
   for (int t = 0; t < nThreads; ++t) {
     int n = range(1, 6);
@@ -165,8 +166,10 @@ static void distributedRun(bool publicClass) {
   sim_note("threads", nThreads);
   sim_note("slots", (int64_t)N);
   sim_note("public", publicClass);
-  dispenso::detail::DistributedRWLockImpl<N> impl;
-  dispenso::DistributedRWLock<N> pub;
+  std::unique_ptr<dispenso::detail::DistributedRWLockImpl<N>> implOwner(new dispenso::detail::DistributedRWLockImpl<N>());
+  std::unique_ptr<dispenso::DistributedRWLock<N>> pubOwner(new dispenso::DistributedRWLock<N>()); // heap: store-buffer fault
+  dispenso::detail::DistributedRWLockImpl<N>& impl = *implOwner;
+  dispenso::DistributedRWLock<N>& pub = *pubOwner;
   struct Step {
     int op; // 0 read, 1 try-read, 2 lock, 3 try_lock
     size_t slot;
@@ -325,7 +328,8 @@ static void wlAsyncRequest() {
   int nProd = range(1, 3);
   sim_note("consumers", nCons);
   sim_note("producers", nProd);
-  dispenso::AsyncRequest<Val> req;
+  std::unique_ptr<dispenso::AsyncRequest<Val>> reqOwner(new dispenso::AsyncRequest<Val>()); // heap: store-buffer fault
+  dispenso::AsyncRequest<Val>& req = *reqOwner;
   struct Hist {
     int requestsInvoked = 0;
     int emplaceOk = 0;
@@ -491,7 +495,7 @@ static void wlResourcePool() {
 
 } // namespace
 
-HX_WORKLOAD("C22", "rwlock", wlRWLock, SF_ALL, 2000000, 2000000, 1);
-HX_WORKLOAD("C23", "distributed-rwlock", wlDistRW, SF_ALL, 2000000, 2000000, 1);
-HX_WORKLOAD("C24", "async-request", wlAsyncRequest, SF_ALL, 1000000, 1000000, 1);
-HX_WORKLOAD("C25", "resource-pool", wlResourcePool, SF_ALL, 2000000, 2000000, 1);
+HX_WORKLOAD("C22", "rwlock", wlRWLock, SF_ALL | SF_TSO, 2000000, 2000000, 1);
+HX_WORKLOAD("C23", "distributed-rwlock", wlDistRW, SF_ALL | SF_TSO, 2000000, 2000000, 1);
+HX_WORKLOAD("C24", "async-request", wlAsyncRequest, SF_ALL | SF_TSO, 1000000, 1000000, 1);
+HX_WORKLOAD("C25", "resource-pool", wlResourcePool, SF_ALL | SF_TSO, 2000000, 2000000, 1);
